@@ -127,7 +127,7 @@ def Call.pre {β : Type} : Call β → Pre β
       .destination (strAttr a.destination)) .signature (strAttr a.signature), a.body⟩
 
 /-- The `oobFDs` argument handed to `_marshal` (only `MethodCallMessage` has one). -/
-def Call.oob {β : Type} : Call β → Option (List Int)
+def Call.oob {β : Type} : Call β → Option (List PyVal)
   | .methodCall a => a.oobFDs
   | _ => none
 
@@ -152,7 +152,7 @@ def signedOf (k raw : Nat) : Int :=
   if 2 * raw < 256 ^ k then (raw : Int) else (raw : Int) - (256 ^ k : Nat)
 
 /-- What `unmarshal` returns for a specification value (`fds` = the `oobFDs` argument). -/
-def pyOf (fds : Option (List Int)) : HVal → PyVal
+def pyOf (fds : Option (List PyVal)) : HVal → PyVal
   | .text _ s => .str .plain s
   | .num c raw =>
     match c with
@@ -165,7 +165,7 @@ def pyOf (fds : Option (List Int)) : HVal → PyVal
     | .h =>
       match fds with
       | some l => match l[raw]? with
-        | some fd => .int .plain fd
+        | some fd => fd
         | none => .none
       | none => .none
     | _ => .none          -- `num` with a text type: not a well-formed value
